@@ -76,7 +76,7 @@ class StmtMixin:
         return done + [(s, ("normal",)) for s in live]
 
     def run_ghost(self, stmt, st, cx):
-        c = cx.contract
+        c = cx.contract or getattr(cx, "ghost_contract", None)
         if c is None or not c.ghost or cx.spec:
             return [st]
         txt = None
@@ -110,7 +110,8 @@ class StmtMixin:
         body = ast.parse("\n".join(code) if isinstance(code, list) else code).body
         outs = []
         for st in states:
-            gcx = cx.child(mod=cx.contract.module, spec=True, acc=[], contract=None)
+            gc_ = cx.contract or getattr(cx, "ghost_contract", None)
+            gcx = cx.child(mod=gc_.module, spec=True, acc=[], contract=None)
             for s2, oc in self.exec_block(body, st, gcx):
                 if oc[0] != "normal":
                     raise Unsupported("ghost code must fall through")
